@@ -87,7 +87,8 @@ def check_case(acc, kind, arch, params, st=None, history=None):
     st = build_state(kind, arch, params) if st is None else st
     n = arch[0]
     D = 2 ** n
-    space = tbits(n)
+    from ..common import space_of
+    space = space_of(st, n)
     if n not in _OPS:
         _OPS[n] = operators(n)
     ops = _OPS[n]
